@@ -136,6 +136,8 @@ def c04(d):
     if bad is not None:
       bad["tensor_kind_index"] = tried
       return {"status": "confirmed", "observed": bad, "expected": "clause %s" % clause}
+  if clause not in ("no_raise", "code", "zero_iff_below", "scale_const", "code_set", "code_sign", "scale_nonneg", "scale_po2", "scale_po2_bounds", "scale_ls", "scale_group"):
+    return {"status": "unsupported", "detail": "clause %s has no native evaluation" % clause}
   return {"status": "refuted", "observed": {"tensors_tried": tried}}
 
 
@@ -204,10 +206,24 @@ def c05(d):
       if np.any(at_max & (m > 0) & ~np.isclose(out, t, rtol=1e-5)):
         i = int(np.argmax(at_max & ~np.isclose(out, t, rtol=1e-5)))
         bad = {"x": float(t.reshape(-1)[i]), "output": float(out.reshape(-1)[i])}
+    if clause == "scale_group" and not rp.get("frozen"):
+      rank = len(shape)
+      axes = _group_axes(rank, kw.get("scale_axis")) if rank > 1 else (0,)
+      want_shape = tuple(1 if i in axes else d for i, d in enumerate(shape))
+      if kw["alpha"] == "auto":
+        levels = (2 ** (bits - 1) - 1) * 2
+        want = np.max(np.abs(t.astype(np.float64) / 2.0 ** integer), axis=axes, keepdims=True) * 2 / levels * 2.0 ** n
+        if scale.shape != want.shape or not np.allclose(scale, want, rtol=1e-5, atol=1e-12):
+          bad = {"scale_shape": list(scale.shape), "expected_shape": list(want.shape),
+                 "scale": scale.reshape(-1).tolist()[:6], "expected_per_group": want.reshape(-1).tolist()[:6]}
+      elif tuple(scale.shape) != want_shape:
+        bad = {"scale_shape": list(scale.shape), "expected_shape": list(want_shape)}
     if clause == "frozen" and rp.get("frozen"):
       if not np.allclose(scale, kw["post_training_scale"]):
         bad = {"scale": scale.reshape(-1).tolist()[:4], "expected": kw["post_training_scale"]}
     if bad is not None:
       bad.update({"bits": bits, "integer": integer, "tensor_kind_index": tried})
       return {"status": "confirmed", "observed": bad, "expected": "clause %s" % clause}
+  if clause not in ("no_raise", "scale_pos", "form", "code_is_integer", "code_width", "scale_po2", "scale_po2_bounds", "scale_exp_integer", "max_to_top", "frozen", "scale_group"):
+    return {"status": "unsupported", "detail": "clause %s has no native evaluation" % clause}
   return {"status": "refuted", "observed": {"tensors_tried": tried}}
